@@ -96,21 +96,19 @@ func bracesSeqRec(word *syntax.Word, yield func(*syntax.Word) bool) bool {
 				width = max(len(fromLit), len(toLit))
 			}
 			upward := from <= to
-			incr := int64(1)
+			// Only the absolute value of the step matters; use an unsigned integer
+			// so that the absolute value of the minimum int64 is representable.
+			step := uint64(1)
 			if len(br.Elems) > 2 {
 				// ParseInt with bit size 64 to ensure consistent behavior on 32-bit platforms.
 				n, _ := strconv.ParseInt(br.Elems[2].Lit(), 10, 64)
 				if n < 0 {
-					n = -n // only the absolute value of the step matters
-				}
-				if n != 0 {
-					incr = n
+					step = -uint64(n)
+				} else if n > 0 {
+					step = uint64(n)
 				}
 			}
-			if !upward {
-				incr = -incr
-			}
-			for n := from; (upward && n <= to) || (!upward && n >= to); n += incr {
+			for n := from; ; {
 				next := *word
 				lit := &syntax.Lit{}
 				switch {
@@ -124,6 +122,20 @@ func bracesSeqRec(word *syntax.Word, yield func(*syntax.Word) bool) bool {
 				next.Parts = append([]syntax.WordPart{lit}, rest...)
 				if !expand(&next) {
 					return false
+				}
+				// Advance towards the end of the range, stopping when the next
+				// element would go past it; the distance left always fits in a uint64,
+				// so this cannot wrap around like n += step could near the int64 limits.
+				if upward {
+					if uint64(to)-uint64(n) < step {
+						break
+					}
+					n = int64(uint64(n) + step)
+				} else {
+					if uint64(n)-uint64(to) < step {
+						break
+					}
+					n = int64(uint64(n) - step)
 				}
 			}
 			return true
